@@ -1,6 +1,6 @@
 ------------------------------ MODULE MCWalk ------------------------------
 (* Bounded instances of WalkProtocol: all forests on <= MaxNodes nodes, quit at no node or at one. *)
-EXTENDS WalkProtocol
+EXTENDS WalkProtocol, Json
 
 CONSTANTS MaxNodes, WithQuit
 
@@ -17,5 +17,6 @@ MCInit == \E t \in Trees :
             \E q \in ({{}} \cup (IF WithQuit THEN {{n} : n \in DOMAIN t.ch} ELSE {})) : InitWith(t, q)
 
 Spec == MCInit /\ [][Next]_vars
+
 FairSpec == MCInit /\ [][Next]_vars /\ \A w \in W : WF_vars(Step(w))
 =============================================================================
